@@ -51,9 +51,16 @@ func checkC20(c Node) Verdict {
 	// the names of the registers are the caller's business: the same history with k1 / k2 renamed to numbers (written
 	// as numeric constants) whose %v text is in exponent form - SETVAR, GETVAR and the caller's map have to agree on
 	// one spelling of such a name
-	{
-		keyName := map[string]string{"k1": "1e+06", "k2": "1e-05"}
-		keyText := map[string]string{"k1": "1000000", "k2": "0.00001"}
+	// - and to two names that differ in the case of a letter only: two registers
+	for _, naming := range []struct {
+		tag              string
+		keyName, keyText map[string]string
+		str              bool
+	}{
+		{"numeric-names", map[string]string{"k1": "1e+06", "k2": "1e-05"}, map[string]string{"k1": "1000000", "k2": "0.00001"}, false},
+		{"case-names", map[string]string{"k1": "n", "k2": "N"}, map[string]string{"k1": "n", "k2": "N"}, true},
+	} {
+		keyName, keyText := naming.keyName, naming.keyText
 		renameMap := func(m any) map[string]any {
 			out := map[string]any{}
 			for k, x := range m.(map[string]any) {
@@ -77,6 +84,9 @@ func checkC20(c Node) Verdict {
 					if lit, ok := args[0].(Node); ok && lit["k"] == "lit" {
 						if txt, ok := keyText[CodePoints(lit["v"].(Node)["c"])]; ok {
 							args[0] = Lit(Node{"t": "num", "n": float64(1), "d": float64(1), "raw": txt})
+							if naming.str {
+								args[0] = Lit(TStr(txt))
+							}
 							out["args"] = args
 						}
 					}
@@ -92,7 +102,7 @@ func checkC20(c Node) Verdict {
 			return v
 		}
 		vars2 := renameMap(FromTagged(c["vars0"]))
-		rsig := append(append([]string{}, sig...), "numeric-names")
+		rsig := append(append([]string{}, sig...), naming.tag)
 		sqls2 := ""
 		for i, qn := range prog {
 			qn := qn.(Node)
